@@ -131,7 +131,8 @@ CLAIMED = {
    text="Theorems (Props/C15.lean), the executable model instantiated with an arbitrary linearly ordered field: the box sides computed by the model's min / max folds are attained by observed values, contain every observed value and are "
         "contained in every box that does, and the box is missing exactly when nothing is observed (bbox_tight); translating by the minimum puts the smallest observed coordinate at exactly 0 and keeps the extent (focus_min_zero); flip negates "
         "exactly that coordinate and is its own inverse (flip_neg_only, flip_involutive, flipBody_spec); the matrix product is the identity for the identity matrix and linear, for 2-D and 3-D points (matmul_id_2/3, matmul_linear_2/3); the "
-        "augmentation matrix is the identity when no deviation is positive (augment_id_when_std_zero); confidences are untouched. Partial: float rounding and numpy's cos / sin are outside the theorems. All transforms are run on NumPy poses "
+        "augmentation matrix is the identity when no deviation is positive (augment_id_when_std_zero); confidences are untouched; focus() on the whole body (focusBody_spec, over a field with floor / ceil): coordinates translated by the per-axis minima, header "
+        "dimensions = the extents rounded up — the least whole numbers not below them (ceil_extent_spec) —, depth 0 for 2-D, confidences and missing pattern untouched. Partial: float rounding and numpy's cos / sin are outside the theorems. All transforms are run on NumPy poses "
         "with dyadic data (exact arithmetic), the random draws of augment2d replayed, and compared with the algebraic clauses and with the model.",
    technique="Lean 4 proof over an ordered field (Mathlib ring / linarith on the model's folds) + differential correspondence with exact dyadic data",
    design="§5 C15"),
@@ -167,7 +168,7 @@ CLAIMED = {
    text="Theorems (Props/C19.lean): every cell (frame f, person p, keypoint k) of the loaded pose holds the x, y, confidence of opCell and is missing exactly when that confidence is 0 (openpose_cell); a present keypoint k of component c is "
         "(numbers[3k], numbers[3k+1], numbers[3k+2]) found at the component's own header offset = sum of the earlier components' point counts (openpose_present, via locate_offset / triplesOf_get), whatever the earlier lists contain; a list that is empty or stops early "
         "leaves the rest of that component zero, hence missing, and shifts nothing (openpose_short_component); absent frames / people are all zeros hence missing (openpose_absent); frame count = requested or max id + 1, every present id is below it, fps recorded (loaded_meta); get_frame_id modelled as a matcher with re.findall semantics (leftmost, non-overlapping, greedy; last match), proved to return the LAST digit group before '_keypoints.json' for an arbitrary prefix whose last character is not a digit "
-        "and at whose end no complete '_keypoints?json' literal ends (frame_id_last_group; frame_id_documented: no condition at all for the documented scheme [ARBITRARY]_[ID]_keypoints.json); the excluded name shape is exhibited (example) and compared with Python's re like every other name. The real load_openpose / load_openpose_directory are run on dictionaries with a distinct value per cell, shuffled and foreign keys, empty component lists. Partial: the loops are modelled in closed form.",
+        "and at whose end no complete '_keypoints?json' literal ends (frame_id_last_group; frame_id_documented: no condition at all for the documented scheme [ARBITRARY]_[ID]_keypoints.json); the excluded name shape is exhibited (example) and compared with Python's re like every other name. The real load_openpose / load_openpose_directory are run on dictionaries with a distinct value per cell, shuffled and foreign keys, empty component lists. The loops themselves (keypoint_id running over the components, the inner enumerate writing triples) are modelled literally (loopPerson) and proved to leave, cell by cell, what the closed form reads off the lists, for every person whose lists are not longer than their components (loop_getD, loopPerson_cell, opCell_eq_loop; an overlong list spills into the next component, shown by example, and is refused by the model).",
    technique="Lean 4 proof (list indexing of the component offsets; strong induction over the remaining prefix for the file-name matcher) + cell-by-cell differential run",
    design="§5 C19"),
  "C20": dict(
